@@ -812,7 +812,7 @@ where
                     if let Some(s) = self.model.remove(&h) {
                         self.exits[1] += 1;
                         if s != ZST_SNAP && !ledger::is_dropped(s.id) {
-                            return Err(("C05", format!("component {} of deleted entity {:?} was not destroyed", s.id, h)));
+                            return Err((if self.prop == "C08" { "C08" } else { "C05" }, format!("component {} of deleted entity {:?} was not destroyed", s.id, h)));
                         }
                         ev.ir.push((false, h.id()));
                         self.removed_via.insert("entity deletion");
@@ -843,7 +843,7 @@ where
                     if let Some(s) = self.model.remove(&h) {
                         self.exits[1] += 1;
                         if s != ZST_SNAP && !ledger::is_dropped(s.id) {
-                            return Err(("C05", format!("component {} of deleted entity {:?} was not destroyed", s.id, h)));
+                            return Err((if self.prop == "C08" { "C08" } else { "C05" }, format!("component {} of deleted entity {:?} was not destroyed", s.id, h)));
                         }
                         ev.ir.push((false, h.id()));
                         self.removed_via.insert("entity deletion");
